@@ -16,7 +16,12 @@ def missing_values_discipline(ctx: Ctx, rule: str):
     cgc = sm.cls("codegen/base.py", "CodeGenerator")
     f = cgc.methods["missing_values"]
     loops = [n for n in f.node.body if isinstance(n, ast.For)]
-    ctx.check(len(loops) == 2, rule, f.key("two-loops"), "one loop over states+parameters, one over the sorted assignments", f"missing_values has {len(loops)} top-level loops", f.where())
+    if len(loops) != 2:
+        # the counter discipline is judged on the two-loop idiom (store, count, early exit); another construction
+        # (a generator, a helper) is not a deviation in itself
+        ctx.undecided(rule, f.key("two-loops"), f"missing_values no longer has the two top-level loops the counter discipline is read from (found {len(loops)})", f.where())
+        return
+    ctx.ok(rule, f.key("two-loops"), "one loop over states+parameters, one over the sorted assignments", f.where())
     if len(loops) == 2:
         l1, l2 = loops
         # the counter: the one local advanced by `+= 1` inside the loops; the bound: whatever is compared with it
